@@ -79,6 +79,10 @@ func (w *hxWriter) Write(p []byte) (int, error) {
 func (w *hxWriter) Flush() { w.commit(http.StatusOK) }
 
 func (t *hxTransport) RoundTrip(req *http.Request) (*http.Response, error) {
+	if err := req.Context().Err(); err != nil {
+		// like net/http: a request whose context has already ended is never sent
+		return nil, err
+	}
 	var body []byte
 	if req.Body != nil {
 		body, _ = io.ReadAll(req.Body)
